@@ -507,3 +507,38 @@ package eval
 //@   ensures [C07] kept: forall key string :: {key in pe.representativePeersMap} {old(key in pe.representativePeersMap)} old(key in pe.representativePeersMap) ==>
 //@         (key in pe.representativePeersMap && pe.representativePeersMap[key] == old(pe.representativePeersMap[key]))
 //@   ensures [C07] nilsel: objSelectors == nil ==> res != nil
+
+// the fake ingress-controller pod is a pod like any other for the exposure bookkeeping: a policy may select it, so its
+// accumulators must be usable (D16: they were left nil and `list --exposure` panicked)
+//@ func (*PolicyEngine).AddPodByNameAndNamespace
+//@   requires pe != nil && pe.podsMap != nil && pe.namespacesMap != nil && pe.cache != nil
+//@   modifies *
+//@   ensures [C12,C06] usable: res1 == nil ==> (dyntype(res0, *k8s.WorkloadPeer) && unwrap(res0, *k8s.WorkloadPeer) != nil && unwrap(res0, *k8s.WorkloadPeer).Pod != nil
+//@         && fresh(unwrap(res0, *k8s.WorkloadPeer).Pod) && podExpOK(unwrap(res0, *k8s.WorkloadPeer).Pod)
+//@         && unwrap(res0, *k8s.WorkloadPeer).Pod.FakePod && unwrap(res0, *k8s.WorkloadPeer).Pod.Name == name && unwrap(res0, *k8s.WorkloadPeer).Pod.Namespace == ns)
+
+// ---------------------------------------------------------------------------------------------
+// What the ingress analysis asks about a workload (C10): its TCP container ports, and its named ports
+// ---------------------------------------------------------------------------------------------
+
+//@ fun podOfPeer(p Peer) *k8s.Pod = if dyntype(p, *k8s.WorkloadPeer) then unwrap(p, *k8s.WorkloadPeer).Pod
+//@       else (if dyntype(p, *k8s.PodPeer) then unwrap(p, *k8s.PodPeer).Pod else nil)
+//@ pred podLike(p Peer) = ((dyntype(p, *k8s.WorkloadPeer) && unwrap(p, *k8s.WorkloadPeer) != nil) || (dyntype(p, *k8s.PodPeer) && unwrap(p, *k8s.PodPeer) != nil))
+//@     && podOfPeer(p) != nil && validPodPorts(podOfPeer(p))
+// n is a TCP container port of the pod
+//@ fun tcpPort(pod *k8s.Pod, n int) bool = exists k int :: {pod.Ports[k]} 0 <= k && k < len(pod.Ports) && cpProto(pod.Ports[k]) == "TCP" && pod.Ports[k].ContainerPort == n
+
+//@ func GetPeerExposedTCPConnections
+//@   requires podLike(peer)
+//@   modifies *
+//@   ensures [C10] wf: wfCS(res) && fresh(res) && !res.AllowAll
+//@   ensures [C10] kept: allKept() && freshSep(res)
+//@   ensures [C10] tcp: forall q corev1.Protocol, n int :: {iset(res.AllowedProtocols[q].Ports)[n]} ptsP(res, q, n) == (q == "TCP" && tcpPort(podOfPeer(peer), n))
+
+//@ func (*PolicyEngine).ConvertPeerNamedPort
+//@   requires podLike(peer)
+//@   ensures [C10] ok: err == nil
+//@   ensures [C10] some: (protocol == "" && portNum == 0 - 1) || namedMatch(podOfPeer(peer).Ports, namedPort, protocol, portNum)
+//@   ensures [C10] found: forall i int :: {podOfPeer(peer).Ports[i]} (0 <= i && i < len(podOfPeer(peer).Ports) && podOfPeer(peer).Ports[i].Name == namedPort
+//@         && (forall j int :: {podOfPeer(peer).Ports[j]} (0 <= j && j < i) ==> podOfPeer(peer).Ports[j].Name != namedPort)) ==>
+//@         (protocol == cpProto(podOfPeer(peer).Ports[i]) && portNum == podOfPeer(peer).Ports[i].ContainerPort)
